@@ -6,7 +6,6 @@ namespace Pynn.Drv
 open Pynn.Idx
 
 /-- row numbers, counts and vertex orders are naturals; `pNat` would silently read `-1` as `0` -/
-def allNats (toks : List String) : Bool := toks.all (fun t => t.toNat?.isSome)
 
 def parseOp (toks : List String) : Option Op :=
   match toks with
